@@ -34,6 +34,7 @@ EXPLANATION = (
     "handler (C04 signatures); every write to a Q register by an instruction other than `set` must drop the tracked value; the scratch register for carbon-carbon gates is chosen outside a set that receives every Register operand of every instruction and never shrinks."
     ' C08.I: no early exit in the rewrite loop and, after it, the new command list may only grow at its end. C08.Z: no truthiness test on an int-typed value.'
     ' C08.E additionally executes NV transpile() abstractly on two 7-instruction programs (expansions of 2 and 3 marker instructions, with and without a jump past the end): jump targets, order of kept / expanded commands, the trailing no-op; the all-paths rules on the rewrite loop stay in force.'
+    ' C08.V / C08.U execute transpile() with the two-qubit handler modelled and the real get_unused_register on programs that set, overwrite, load and compute into Q registers (4, 15 and 16 registers named): tracked values at each gate, scratch register named by no instruction so far, exhaustion. C08.D: the decomposition rules of C07 under this id.'
 )
 LEVEL_TEXT = (
     "Static analysis, partial: the structural conditions of jump retargeting and of the Q-register value tracking are decided for all "
